@@ -207,8 +207,10 @@ func (x *Exec) evCall(st *State, call *ast.CallExpr) []Val {
 		// f(g()) with multi-value g
 		args = x.evMulti(st, call.Args[0], sig.Params().Len())
 	} else {
+		x.rawArgs = nil
 		for i, a := range call.Args {
 			v := x.ev(st, a)
+			x.rawArgs = append(x.rawArgs, v)
 			if sig != nil {
 				var pt types.Type
 				if sig.Variadic() && i >= sig.Params().Len()-1 {
@@ -860,6 +862,8 @@ func (x *Exec) applyContract(st *State, call *ast.CallExpr, fn *types.Func, c *C
 
 func (x *Exec) applyContractSig(st *State, call *ast.CallExpr, sig *types.Signature, fnName, rn string, c *Contract, recv *Val, args []Val) []Val {
 	names := map[string]Val{}
+	raw := x.rawArgs
+	x.curRaw = map[string]Val{}
 	// receiver name
 	if recv != nil {
 		names[rn] = *recv
@@ -874,6 +878,9 @@ func (x *Exec) applyContractSig(st *State, call *ast.CallExpr, sig *types.Signat
 			pn = fmt.Sprintf("a%d", i)
 		}
 		names[pn] = args[i]
+		if i < len(raw) {
+			x.curRaw[pn] = raw[i]
+		}
 	}
 	pre := st.clone()
 	// preconditions
